@@ -423,8 +423,13 @@ if __name__ == '__main__':
               'handle, cell, row, column, region, attribute and indexed-attribute replacement, rename, donor vector) up to the '
               'stated length, plus a core 15-statement alphabet one step longer; family B: every position of the vector / held '
               'column / every table cell x 12-value pool (equal, unequal, equal-hash pairs, 2**61-1 residue pair) with and '
-              'without cached fingerprints; permutation (order) family. Monitor runs only after the last statement (every '
+              'without cached fingerprints; family P: promotion by write of every ladder step (bool->int/float/complex, int->float/'
+              'complex, float->complex, date->datetime, nullable date) through 6 vector and 18 table write paths x cache pre-states x '
+              'column/table fingerprint() after the write; family I: every one of the 32 write paths between two table-level '
+              'fingerprint() calls with a column-level call (held handle, fresh lookup, last column, all columns) after the write, 4 cache '
+              'pre-states, plus two-write variants; permutation (order) family. Monitor runs only after the last statement (every '
               'prefix is a case) so caches are filled only by the history itself. distinct = distinct (setup, op sequence) with a write',
          bound=lambda tier: {'max_steps_full': 2 if tier == 'quick' else 3, 'max_steps_core': 3 if tier == 'quick' else 4,
-                             'setups': len(SETUPS), 'pool': len(POOL), 'max_shape': '3x3'},
+                             'setups': len(SETUPS), 'pool': len(POOL), 'max_shape': '3x3', 'ladder_setups': len(LADDER_SETUPS),
+                             'interleaving_two_write_setups': 1 if tier == 'quick' else 3},
          nontrivial=nontrivial)
